@@ -56,8 +56,15 @@ def run(chk, replay=None):
             x = x.subs(rep)
         return common.gauss_rational(x)
 
-    for k in range(ncases):
-        case = gen_netlist.random_case(rng, analysis='ac', max_nodes=5 if quick else 6)
+    # directed stream first: one component of every modelled kind certainly present, in phasor analysis
+    ac_kinds = [k_ for k_ in gen_netlist.DIRECTED_KINDS if k_ not in ('Cic', 'Lic', 'Kic1', 'Kic2', 'TL')]
+    plan = [(kd, j) for j in range(1 if quick else 6) for kd in ac_kinds] + [(None, 0)] * ncases
+    for k, (dkind, dj) in enumerate(plan):
+        if dkind is not None:
+            case = gen_netlist.directed_case(rng, dkind, analysis='ac', floating=(dj % 2 == 0))
+            chk.count('directed', dkind)
+        else:
+            case = gen_netlist.random_case(rng, analysis='ac', max_nodes=5 if quick else 6)
         if case['subs']:
             # keep symbolic values but substitute them in the Lcapy text (the frequency machinery is the subject here)
             pass
@@ -230,6 +237,62 @@ def run(chk, replay=None):
         chk.case((tuple(llines),), nontriv)
         if nontriv:
             chk.sample({'netlist': llines, 'frequencies': [fstr(w) for w in freqs]})
+
+    # (e) Ohm's law across frequencies with Lcapy's own operators: for a circuit driven at two or three angular
+    #     frequencies, (cpt.V / cpt.Z) and (cpt.V * cpt.Y) must have, at EVERY frequency, the phasor V[w] * Y(jw) with Y the
+    #     s-domain admittance of the element at s = jw (spec: 1/R, jwC, 1/(jwL)), and that is the reported cpt.I[w]
+    for k in range(6 if quick else 60):
+        ws = rng.sample([Fraction(1), Fraction(2), Fraction(3), Fraction(1, 2), Fraction(3, 2), Fraction(5)], rng.choice([2, 2, 3]))
+        vals = {n_: gen_netlist.rv(rng) for n_ in ('R1', 'R2', 'C1', 'L1')}
+        a1, a2, a3 = (gen_netlist.sv(rng) for _ in range(3))
+        fs_ = gen_netlist.fs
+        net = ['V1 1 0 ac %s 0 %s' % (fs_(a1), fs_(ws[0])), 'R1 1 2 %s' % fs_(vals['R1']), 'C1 2 0 %s' % fs_(vals['C1']),
+               'L1 2 3 %s' % fs_(vals['L1']), 'R2 3 4 %s' % fs_(vals['R2']),
+               ('V2 4 0 {(%s)*sin((%s)*t)}' if k % 2 else 'V2 4 0 ac %s 0 %s') % (fs_(a2).strip('{}'), fs_(ws[1]).strip('{}'))]
+        if len(ws) == 3:
+            net.append('I1 0 3 ac %s 0 %s' % (fs_(a3), fs_(ws[2])))
+        chk.case(('ohm', tuple(net)), True)
+        chk.count('ohm-across-frequencies', '%d frequencies' % len(ws))
+        try:
+            with common.time_limit(60):
+                cct = lcapy.Circuit('\n'.join(net))
+                for nm in ('R1', 'C1', 'L1', 'R2'):
+                    el = cct.elements[nm]
+                    V_, I_ = el.V, el.I
+                    for op, q in (('V/Z', V_ / el.Z), ('V*Y', V_ * el.Y)):
+                        for w in ws:
+                            W = S.Rational(w.numerator, w.denominator)
+                            key = [kk for kk in q.ac_keys() if S.simplify(S.sympify(kk) - W) == 0]
+                            vkey = [kk for kk in V_.ac_keys() if S.simplify(S.sympify(kk) - W) == 0]
+                            if not vkey:
+                                continue
+                            vph = common.gauss_rational(S.expand_complex(V_[vkey[0]].sympy))
+                            val_ = vals[nm]
+                            jw = (Fraction(0), w)
+                            # spec admittance at s = jw as a Gaussian rational (re, im)
+                            if nm[0] == 'R':
+                                y = (1 / val_, Fraction(0))
+                            elif nm[0] == 'C':
+                                y = (Fraction(0), w * val_)
+                            else:
+                                y = (Fraction(0), -1 / (w * val_))
+                            want = (vph[0] * y[0] - vph[1] * y[1], vph[0] * y[1] + vph[1] * y[0])
+                            got_q = common.gauss_rational(S.expand_complex(q[key[0]].sympy)) if key else (Fraction(0), Fraction(0))
+                            ikey = [kk for kk in I_.ac_keys() if S.simplify(S.sympify(kk) - W) == 0]
+                            got_i = common.gauss_rational(S.expand_complex(I_[ikey[0]].sympy)) if ikey else (Fraction(0), Fraction(0))
+                            chk.count('oracle', 'ohm-at-jw-checked')
+                            if got_q != want or got_i != want:
+                                n_cex += 1
+                                chk.counterexample({'kind': 'ohm-at-jw', 'operator': op if got_q != want else 'cpt.I', 'element': nm[0]},
+                                                   {'input': {'netlist': net, 'element': nm, 'omega': fstr(w), 'operator': op},
+                                                    'lcapy': {'operator_result': gtok(got_q), 'cpt.I': gtok(got_i), 'cpt.V': gtok(vph)},
+                                                    'spec': 'I[w] = V[w] * Y(jw) = %s' % gtok(want)},
+                                                   '%s of %s at omega=%s is not V[w]*Y(jw)' % (op, nm, w))
+                                raise StopIteration
+        except StopIteration:
+            pass
+        except (Exception, common.TimeLimit) as ex:   # noqa
+            chk.count('lcapy-error', 'ohm:' + type(ex).__name__ + ':' + str(ex)[:40])
 
     # (d') sums of several same-frequency terms, including ones whose cosine parts cancel and
     #      phase-shifted forms with rational cos/sin (3-4-5 angle), symbolic amplitudes substituted afterwards
